@@ -258,6 +258,74 @@ fn compaction_attempt(tree: &mut CThread, compaction: CompactionH) -> (r: Result
 //@ >>
 //@ end
 
-//@ min-verified 6
+// Version::release_compaction, entire -- the function behind release_ongoing above: the entry of the ongoing list that IS
+// this compaction (Arc::ptr_eq on the core) is removed, every other entry stays; Err, and nothing changes, when there is
+// none.  The list mutex is read through (X23: `ongoing_list` is `self.ongoing`), `iter().enumerate()` as an index loop
+// (X13), &self as &mut self (X20).  ASSUMED: an ongoing compaction is on the list once (identities on the list are
+// pairwise distinct) -- then "the first match is removed" is "the compaction is removed".
+#[verifier::external_body]
+struct CoreArc { _p: u8 }
+impl CoreArc { uninterp spec fn id(&self) -> int; }
+#[verifier::external_body]
+fn core_ptr_eq(a: &CoreArc, b: &CoreArc) -> (r: bool) ensures r == (a.id() == b.id()) { unimplemented!() }
+#[verifier::external_body]
+fn not_ongoing_error() -> (r: SError) { unimplemented!() }
+struct CompactionC { core: CoreArc }
+struct VersionO { ongoing: Vec<CoreArc> }
+spec fn ids(l: Seq<CoreArc>) -> ISet<int> { ISet::new(|x: int| exists|k: int| 0 <= k < l.len() && (#[trigger] l[k]).id() == x) }
+spec fn distinct(l: Seq<CoreArc>) -> bool { forall|a: int, b: int| 0 <= a < b < l.len() ==> (#[trigger] l[a]).id() != (#[trigger] l[b]).id() }
+impl VersionO {
+//@ extract lsmtk/src/tree/mod.rs | impl Version :: fn release_compaction
+//@ ret r
+//@ rewrite-re X20 `fn release_compaction\(&self, compaction: Compaction\)` => `fn release_compaction(&mut self, compaction: CompactionC)`
+//@ rewrite-re X23 `(?m)^\s*let mut ongoing_list = self\.ongoing\.lock\(\)\.unwrap\(\);\n` => ``
+//@ rewrite-re X13 `for \(idx, ongoing\) in ongoing_list\.iter\(\)\.enumerate\(\) \{` => `for idx in 0..self.ongoing.len() { let ongoing = &self.ongoing[idx];`
+//@ rewrite-re? X23 `\bongoing_list\b` => `self.ongoing`
+//@ rewrite-re X18 `Arc::ptr_eq\(ongoing, &compaction\.core\)` => `core_ptr_eq(ongoing, &compaction.core)`
+//@ rewrite-re? X7 `Err\(logic_error\("Provided a compaction that is not ongoing"\)\)` => `Err(not_ongoing_error())`
+//@ rewrite-re? X4 `self\.ongoing\.swap_remove\((\w+)\);` => `let _ = self.ongoing.swap_remove(\1);`
+//@ pre <<
+        distinct(old(self).ongoing@),
+//@ >>
+//@ post <<
+        r is Ok ==> ids(old(self).ongoing@).contains(compaction.core.id()) && ids(final(self).ongoing@) =~= ids(old(self).ongoing@).remove(compaction.core.id())
+            && distinct(final(self).ongoing@),
+        r is Err ==> !ids(old(self).ongoing@).contains(compaction.core.id()) && final(self).ongoing@ == old(self).ongoing@,
+//@ >>
+//@ loop `for idx in` <<
+            invariant self.ongoing@ == old(self).ongoing@, distinct(self.ongoing@),
+                forall|k: int| 0 <= k < idx ==> (#[trigger] self.ongoing@[k]).id() != compaction.core.id(), /* contract-inv */
+//@ >>
+//@ after? `let _ = self.ongoing.swap_remove(` <<
+                proof { if self.ongoing@ == old(self).ongoing@.update(idx as int, old(self).ongoing@.last()).drop_last() { lemma_swap_remove_ids(old(self).ongoing@, self.ongoing@, idx as int); } }
+//@ >>
+//@ end
+}
+proof fn lemma_swap_remove_ids(l0: Seq<CoreArc>, l1: Seq<CoreArc>, i: int)
+    requires 0 <= i < l0.len(), distinct(l0), l1 == l0.update(i, l0.last()).drop_last(),
+    ensures ids(l1) =~= ids(l0).remove(l0[i].id()), distinct(l1), ids(l0).contains(l0[i].id()),
+{
+    let n = l0.len() as int;
+    assert forall|x: int| ids(l1).contains(x) <==> (ids(l0).contains(x) && x != l0[i].id()) by {
+        if ids(l1).contains(x) {
+            let k = choose|k: int| 0 <= k < l1.len() && (#[trigger] l1[k]).id() == x;
+            if k == i { assert(l1[k] == l0[n - 1]); assert(l0[n - 1].id() == x); assert(i < n - 1); }
+            else { assert(l1[k] == l0[k]); assert(l0[k].id() == x); }
+        }
+        if ids(l0).contains(x) && x != l0[i].id() {
+            let k = choose|k: int| 0 <= k < l0.len() && (#[trigger] l0[k]).id() == x;
+            if k == n - 1 { assert(i < n - 1); assert(l1[i] == l0[n - 1]); assert(l1[i].id() == x); }
+            else { assert(l1[k] == l0[k]); assert(l1[k].id() == x); }
+        }
+    }
+    assert forall|a: int, b: int| 0 <= a < b < l1.len() implies (#[trigger] l1[a]).id() != (#[trigger] l1[b]).id() by {
+        let a0 = if a == i { n - 1 } else { a }; let b0 = if b == i { n - 1 } else { b };
+        assert(l1[a] == l0[a0] && l1[b] == l0[b0]);
+        if a0 < b0 { assert(l0[a0].id() != l0[b0].id()); } else { assert(l0[b0].id() != l0[a0].id()); }
+    }
+    assert(l0[i].id() == l0[i].id());
+}
+
+//@ min-verified 8
 } // verus!
 fn main() {}
